@@ -65,9 +65,15 @@ var writeKinds = []errKind{
 	{"short-write", io.ErrShortWrite, true},
 }
 
+// driver.ErrBadConn is special: database/sql may absorb it by retrying the
+// call (which calls it retries depends on the API the caller used: Stmt.Exec
+// and Stmt.Query are retried, Tx.Exec is not), so whether the failure reaches
+// qframe at all cannot be told from outside. For it only F3 applies (no error
+// => nothing lost); F2 (fired => error reported) is demanded for the opaque
+// error, which database/sql hands to its caller on every path.
 var dbKinds = []errKind{
 	{"opaque", simdb.ErrInjected, true},
-	{"badconn", driver.ErrBadConn, true},
+	{"badconn", driver.ErrBadConn, false},
 }
 
 type caseTrace struct {
@@ -156,7 +162,8 @@ func enumerateReader(t *rapid.T, r *core.SplitMix, surface string, doc []byte, i
 	n := len(doc)
 	sampled := false
 	for pos := 0; pos <= n; pos++ {
-		for _, withData := range []bool{false, true} {
+		for shapeIx, withData := range []bool{false, true, false} {
+			once := shapeIx == 2
 			if withData && pos == 0 {
 				continue
 			}
@@ -164,10 +171,13 @@ func enumerateReader(t *rapid.T, r *core.SplitMix, surface string, doc []byte, i
 			if withData {
 				shape = "data-and-error"
 			}
+			if once {
+				shape = "transient-zero-bytes-and-error"
+			}
 			kinds := []errKind{readKinds[r.Intn(3)], readKinds[3], readKinds[4]}
 			for _, k := range kinds {
 				plan := randomPlan(r, n)
-				plan.Fault = &simio.ReadFault{At: pos, WithData: withData, Kind: k.name, Err: k.err}
+				plan.Fault = &simio.ReadFault{At: pos, WithData: withData, Kind: k.name, Err: k.err, Once: once}
 				rd := &simio.SimReader{Doc: doc, Plan: plan, MaxReads: 16*n + 1024}
 				fr, pan := read(rd)
 				core.Steps(rd.Reads)
@@ -285,13 +295,17 @@ func enumerateWriter(t *rapid.T, r *core.SplitMix, surface string, input interfa
 	inputSig := core.Hash64(want)
 	sampled := false
 	for pos := 0; pos < n; pos++ {
-		for _, short := range []bool{false, true} {
+		for shapeIx, short := range []bool{false, true, false} {
+			once := shapeIx == 2
 			shape := "zero-bytes-and-error"
 			if short {
 				shape = "short-write"
 			}
+			if once {
+				shape = "transient-zero-bytes-and-error"
+			}
 			k := writeKinds[r.Intn(len(writeKinds))]
-			w := &simio.SimWriter{Fault: &simio.WriteFault{At: pos, Short: short, Kind: k.name, Err: k.err}}
+			w := &simio.SimWriter{Fault: &simio.WriteFault{At: pos, Short: short, Kind: k.name, Err: k.err, Once: once}}
 			err, pan := write(w)
 			core.Steps(w.Writes)
 			note(surface, pos, shape, k.name, w.Fired, inputSig)
@@ -422,10 +436,8 @@ func toSQLFaults(t *rapid.T, r *core.SplitMix) {
 				tr.Reported = err.Error()
 				continue
 			}
-			if sim.Fired && !refExecSurfaces(cfg, base.Stmts, &simdb.Fault{At: pos, Kind: k.name, Err: k.err}) {
-				// database/sql absorbed the driver failure (e.g. retried after
-				// ErrBadConn): it never reached the caller, no obligation
-				core.Probe("ToSQL-fault-absorbed-by-database/sql")
+			if sim.Fired && !k.strict {
+				core.Probe("ToSQL-badconn-no-error-reported-complete-output-required")
 			} else if sim.Fired {
 				core.Violation(t, "C15:swallowed:ToSQL:"+opKind, fmt.Sprintf("driver call %d/%d (%s) failed with %s, ToSQL reported success", pos, n, opKind, k.name), tr)
 				return
@@ -506,10 +518,8 @@ func readSQLFaults(t *rapid.T, r *core.SplitMix) {
 			if fr.HasErr || !sim.Fired {
 				continue
 			}
-			if !refQuerySurfaces(cfg, table, &simdb.Fault{At: pos, Kind: k.name, Err: k.err}) {
-				// database/sql absorbed the driver failure (e.g. retried after
-				// ErrBadConn): it never reached the caller. Only F3 applies.
-				core.Probe("ReadSQL-fault-absorbed-by-database/sql")
+			if !k.strict {
+				core.Probe("ReadSQL-badconn-no-error-reported-complete-data-required")
 				if d := obs.Diff(fr0, fr); d != "" {
 					core.Violation(t, "C15:swallowed:ReadSQL:partial-data", "no error reported and the frame differs from the fault-free one: "+d, tr)
 					return
@@ -527,61 +537,4 @@ func readSQLFaults(t *rapid.T, r *core.SplitMix) {
 	if n <= 6 {
 		core.Sample(map[string]interface{}{"surface": "ReadSQL", "driver_calls": base.Ops[1:], "each_failed_with": []string{"opaque", "driver.ErrBadConn"}})
 	}
-}
-
-// refExecSurfaces runs the trivially correct reference client (one tx.Exec per
-// recorded statement, every error looked at) under the same fault and reports
-// whether database/sql surfaced the driver failure to its caller.
-func refExecSurfaces(cfg simdb.Config, stmts []simdb.Stmt, f *simdb.Fault) bool {
-	sim := simdb.New(cfg)
-	db := sim.Open()
-	defer db.Close()
-	tx, err := db.Begin()
-	if err != nil {
-		return true
-	}
-	defer tx.Rollback()
-	f2 := *f
-	f2.At += len(sim.Ops)
-	sim.Fault = &f2
-	for _, st := range stmts {
-		args := make([]interface{}, len(st.Args))
-		for i, a := range st.Args {
-			args[i] = a
-		}
-		if _, err := tx.Exec(st.Text, args...); err != nil {
-			return true
-		}
-	}
-	return false
-}
-
-// refQuerySurfaces is the reference reader: Prepare, Query, Next/Scan until
-// false, then Err.
-func refQuerySurfaces(cfg simdb.Config, table *simdb.Table, f *simdb.Fault) bool {
-	sim := simdb.New(cfg)
-	sim.Tables["t"] = table
-	db := sim.Open()
-	defer db.Close()
-	tx, err := db.Begin()
-	if err != nil {
-		return true
-	}
-	defer tx.Rollback()
-	f2 := *f
-	f2.At += len(sim.Ops)
-	sim.Fault = &f2
-	stmt, err := tx.Prepare("SELECT * FROM t")
-	if err != nil {
-		return true
-	}
-	defer stmt.Close()
-	rows, err := stmt.Query()
-	if err != nil {
-		return true
-	}
-	defer rows.Close()
-	for rows.Next() {
-	}
-	return rows.Err() != nil
 }
